@@ -91,18 +91,28 @@ package dkg
 // every foreign deal is checked against its dealer's broadcast commitments, and one failed check fails the step
 //@ ghost var $commitChecks int
 //@ ghost var $commitOK int
+//   $dealsSeen = deals handed to kyber's ProcessDeal so far
+//@ ghost var $dealsSeen int
+//@ func (*github.com/corestario/kyber/share/dkg/pedersen.DistKeyGenerator).ProcessDeal
+//@   assumed
+//@   epilogue $dealsSeen = old($dealsSeen) + 1
 //@ func (*DKG).ProcessDeals behavior checks
 //@   nosafety
 //@   requires d != nil && wfStore(d.pubKeys) && d.commits != nil && d.deals != nil && (forall k string :: k in d.deals ==> d.deals[k] != nil)
 // (loop 0 collects the stored deals, which are then sorted by dealer index; loop 1 checks them in that order)
-//@   loop 0 invariant wfStore(d.pubKeys) && d.commits != nil && $commitChecks == 0 && $commitOK == 0
+//@   loop 0 invariant wfStore(d.pubKeys) && d.commits != nil && $commitChecks == 0 && $commitOK == 0 && $dealsSeen == 0
 //@   loop 1 invariant wfStore(d.pubKeys) && d.commits != nil
 //@   prologue $commitChecks = 0
 //@   prologue $commitOK = 0
+//@   prologue $dealsSeen = 0
 //@   modifies *
-//@   modifies $dec, $commitChecks, $commitOK
+//@   modifies $dec, $commitChecks, $commitOK, $dealsSeen
 //@   loop 1 invariant[C11.deals.all] $commitChecks == $commitOK
 //@   ensures[C11.deals.all] result1 == nil ==> $commitChecks == $commitOK
+// ... and no deal that kyber was given escapes the comparison with its dealer's broadcast commitments - whatever the
+// history of the machine (restarted, replayed) may be
+//@   loop 1 invariant[C11.deals.every,C02.deals.every] $commitChecks == $dealsSeen
+//@   ensures[C11.deals.every,C02.deals.every] result1 == nil ==> $commitChecks == $dealsSeen
 
 // the public keyring handed to the reconstruction is a keyring whenever no error is reported
 //@ func LoadPubPolyBLSKeyringFromBytes
